@@ -330,7 +330,9 @@ skipSpace:
 				case '\n', runeEOF:
 					break runeLoop
 				case escNewl:
-					p.litBs = append(p.litBs, '\\', '\n')
+					// A comment cannot be continued with a backslash,
+					// and the newline which ends it is not part of it.
+					p.litBs = append(p.litBs, '\\')
 					break runeLoop
 				case '`':
 					if p.backquoteEnd() {
